@@ -93,6 +93,11 @@ def to_coq(c):
             pr, coq_str(c["name"]), values(c.get("sent")), segs(c.get("input")), obs_err(o), o.get("id") or "0",
             o.get("typ", 0), coq_str(o.get("name", "")), values(o.get("fields")), o.get("alloc", 0),
             coq_str(c["rname"]), c.get("cap", 0), segs(c.get("reply")), rerr, values(o.get("rfields")))
+    if op == "wrap":
+        typ, name, sent = wrap_request(c)
+        return "CReal %d %s %s %s %d %s %d %s %s %d %s 0 [] 0 []" % (
+            typ, coq_str(name), values(sent), segs(c.get("input")), obs_err(o), o.get("id") or "0",
+            o.get("typ", 0), coq_str(o.get("name", "")), values(o.get("fields")), o.get("alloc", 0), coq_str(""))
     if op == "tread":
         return "CTRead %d %d %s %d" % (c["buflen"], c["replen"], "true" if o.get("err") == "ok" else "false",
                                        o.get("n", 0))
@@ -130,12 +135,58 @@ def same_fields(a, b):
     return [canon(f) for f in a or []] == [canon(f) for f in b or []]
 
 
+def wrap_request(c):
+    """(type code, request message, fields) that the call site must put on the wire for its arguments."""
+    a = c["sent"]
+    n = c["name"]
+    if n == "hello":
+        return 1, "helloRequest", [a[0]]
+    if n == "write":
+        return 3, "writeRequest", [a[0], a[1]]
+    if n == "read":
+        return 4, "readRequest", [a[0], a[1]]
+    return 6, "closeRequest", [a[0]]
+
+
+def wrap_oracle(c):
+    o = c["obs"]
+    typ, name, sent = wrap_request(c)
+    if o.get("err") != "ok" or o.get("name") != name or o.get("typ") != typ or not same_fields(o.get("fields"), sent):
+        return "call site %s: the request on the wire is %s %r, its arguments say %s %r" % (
+            c["name"], o.get("name"), o.get("fields"), name, sent)
+    rs = c["rsent"]
+    e = canon(rs[-1]) if rs and rs[-1]["k"] == "err" else ("err", None)
+    want_err = "ok" if e[1] is None else ("ioeof" if e[1] == 10 else "remote")
+    n = c["name"]
+    if n == "hello":
+        if o.get("rerr") != "ok" or seg_bytes(o.get("rbytes")) != canon(rs[0])[1]:
+            return "call site hello: returned %r (%s), the reply carries %r" % (seg_bytes(o.get("rbytes")), o.get("rerr"), canon(rs[0])[1])
+        return None
+    if n == "read":
+        data = canon(rs[0])[1]
+        buflen = int(c["sent"][1]["i"])
+        if len(data) > buflen:
+            want_err, want_n, data = "other", 0, b""
+        else:
+            want_n = len(data)
+        if not o.get("rerr", "").startswith(want_err) or o.get("n") != want_n or seg_bytes(o.get("rbytes")) != data:
+            return "call site read: returned n=%r err=%s, the reply carries %d bytes and error %r (buffer %d)" % (
+                o.get("n"), o.get("rerr"), len(canon(rs[0])[1]), e[1:], buflen)
+        return None
+    want_n = canon(rs[0])[1] if n == "write" else 0
+    if o.get("rerr") != want_err or o.get("n") != want_n:
+        return "call site %s: returned n=%r err=%s, the reply says n=%r error %r" % (n, o.get("n"), o.get("rerr"), want_n, e[1:])
+    return None
+
+
 def impl_oracle(c):
     """Implementation-only reading of the property on one case: returns a
     description of the failure, or None."""
     o = c["obs"]
     if o.get("crash"):
         return "decoding crashed the process: %s" % o["crash"][:200]
+    if c["op"] == "wrap":
+        return wrap_oracle(c)
     if c["op"] == "real":
         # every call kind through the real client transport and the real server entry
         if o.get("err") != "ok":
